@@ -250,7 +250,7 @@ theorem file_plan_shape (fe : FsEnv) (s : Sock) (loc : List Bytes) (r : Range)
     · rw [hlt, hct]
       simp [List.append_assoc]
     · rw [hfa, hfb]
-    · unfold C14.wanted
+    · rw [C14.wanted_fresh _ rfl]
       simp only []
       rw [if_neg (by omega), if_neg (by omega), if_neg (by omega)]
       simp only [Int.toNat_natCast]
